@@ -91,6 +91,7 @@ type Rule struct {
 	// Disruptive: "", "deny", "drop", "redirect", "block", "pass", "allow", "allow:phase", "allow:request"
 	Disruptive string   `json:"disruptive,omitempty"`
 	Status     int      `json:"status,omitempty"`
+	StatusLast bool     `json:"status_last,omitempty"` // render status: after the disruptive action instead of before it
 	Redirect   string   `json:"redirect,omitempty"`
 	Skip       int      `json:"skip,omitempty"`
 	SkipAfter  string   `json:"skipafter,omitempty"`
@@ -177,7 +178,7 @@ func (r *Rule) actions(isLink bool) string {
 	for _, c := range r.Ctl {
 		a = append(a, "ctl:"+c)
 	}
-	if r.Status != 0 {
+	if r.Status != 0 && !r.StatusLast {
 		a = append(a, "status:"+strconv.Itoa(r.Status))
 	}
 	switch r.Disruptive {
@@ -186,6 +187,10 @@ func (r *Rule) actions(isLink bool) string {
 		a = append(a, "redirect:"+r.Redirect)
 	default:
 		a = append(a, r.Disruptive)
+	}
+	if r.Status != 0 && r.StatusLast {
+		// the order of the actions inside a rule carries no meaning
+		a = append(a, "status:"+strconv.Itoa(r.Status))
 	}
 	if r.Skip > 0 {
 		a = append(a, "skip:"+strconv.Itoa(r.Skip))
